@@ -130,6 +130,13 @@ func (t WebsocketTransport) IsSecure() bool {
 	return strings.HasPrefix(t.Config.Address, "wss:")
 }
 
+// forThisConnection returns a transport that stays with the connection established now, whatever connection this
+// transport is given next (see Client.keepaliveTransport).
+func (t *WebsocketTransport) forThisConnection() Transport {
+	bound := *t
+	return &bound
+}
+
 func (t WebsocketTransport) Ping() error {
 	ctx, cancel := context.WithTimeout(t.closeCtx, pingTimeout)
 	defer cancel()
